@@ -155,10 +155,11 @@ def extract(tree):
     cancel_sig = sig[m.group(1)]
     a = vm.find("VM_OP(JOP_PROPAGATE)")
     blk = vm[a:vm.find("VM_OP(", a + 5)]
-    m = re.search(r"if\s*\(sub_status > (JANET_STATUS_\w+)\)\s*\{.*?cannot propagate from fiber with status :%s.*?\}\s*fiber->child = f;\s*vm_return\(\(int\) sub_status, stack\[B\]\);", blk, re.S)
+    m = re.search(r"if\s*\(sub_status > (JANET_STATUS_\w+)( \|\| sub_status == JANET_STATUS_DEAD)?\)\s*\{.*?cannot propagate from fiber with status :%s.*?\}\s*fiber->child = f;\s*vm_return\(\(int\) sub_status, stack\[B\]\);", blk, re.S)
     if not m:
         raise ExtractError("JOP_PROPAGATE: shape changed")
     prop_max = stat[m.group(1)]
+    prop_refuses_dead = m.group(2) is not None
     a = vm.find("VM_OP(JOP_SIGNAL)")
     blk = vm[a:vm.find("VM_OP(", a + 5)]
     if not re.search(r"int32_t s = C;\s*if \(s > JANET_SIGNAL_USER9\) s = JANET_SIGNAL_USER9;\s*if \(s < 0\) s = 0;\s*vm_return\(s, stack\[B\]\);", blk):
@@ -233,7 +234,7 @@ def extract(tree):
     user_max, user_base = int(m.group(1)), sig[m.group(2)]
     return dict(sig=sig, stat=stat, signames=signames, statnames=statnames, env=env, usern=usern, default_mask=default_mask,
                 letters=letters, envmodes=envmodes, refuse=refuse, cancel_sig=cancel_sig, prop_max=prop_max, next_nil=next_nil,
-                next_skip=next_skip, user_max=user_max, user_base=user_base, walk_guarded=walk_guarded, stale_cleared=stale_cleared, chain_alive=chain_alive)
+                next_skip=next_skip, user_max=user_max, user_base=user_base, walk_guarded=walk_guarded, stale_cleared=stale_cleared, chain_alive=chain_alive, prop_refuses_dead=prop_refuses_dead)
 
 
 def render(tree):
@@ -281,5 +282,7 @@ def render(tree):
     o.append("abbrev staleChildCleared : Bool := %s" % ("true" if x["stale_cleared"] else "false"))
     o.append("/-- janet_continue_no_check marks a fiber alive before continuing its child (pass-through activation) -/")
     o.append("abbrev chainAliveMarked : Bool := %s" % ("true" if x["chain_alive"] else "false"))
+    o.append("/-- JOP_PROPAGATE refuses a dead fiber (its status would be signal ok = a return out of the current frame) -/")
+    o.append("abbrev propagateRefusesDead : Bool := %s" % ("true" if x["prop_refuses_dead"] else "false"))
     o.append("\nend JanetModel.Gen.Fiber\n")
     return "\n".join(o)
